@@ -96,6 +96,12 @@ CHECKS["C16"] = {
         {"name": "reject", "pkg": "internal/msgpipeline", "run": "^TestVerifC16",
          "overlay": {"verif_c16_test.go": "harness/C16/reject_test.go"},
          "quick": {"shards": 1}, "thorough": {"shards": 1}},
+        {"name": "smtpconn", "pkg": "internal/smtpconn", "run": "^TestVerifC16Client$",
+         "overlay": {"verif_c16_test.go": "harness/C16/smtpconn_test.go"},
+         "quick": {"shards": 2}, "thorough": {"shards": 4}},
+        {"name": "remote", "pkg": "internal/target/remote", "run": "^TestVerifC16Remote$",
+         "overlay": {"verif_c16_test.go": "harness/C16/remote_test.go"},
+         "quick": {"shards": 2}, "thorough": {"shards": 4}},
     ],
     "quick": {"n": 40000, "shards": 8},
     "thorough": {"n": 1600000, "shards": 16},
@@ -124,6 +130,7 @@ CHECKS["C15"] = {
 }
 
 CHECKS["C14"] = {
+    "crash_is_violation": True,
     "title": "password authentication follows the account history",
     "go": GO,
     "units": [
@@ -176,6 +183,7 @@ CHECKS["C06"] = {
 
 
 CHECKS["C01"] = {
+    "crash_is_violation": True,
     "title": "queue: exactly one terminal outcome per recipient",
     "go": GO126,
     "units": [
@@ -227,6 +235,7 @@ CHECKS["C10"] = {
 }
 
 CHECKS["C08"] = {
+    "crash_is_violation": True,
     "title": "DKIM signatures made by maddy verify at the next hop after spooling and SMTP",
     "go": GO,
     "units": [
@@ -281,8 +290,8 @@ CHECKS["C12"] = {
          "overlay": dict(QUEUE_COMMON, **{"verif_c01_test.go": "harness/C01/queue_test.go", "verif_c12_test.go": "harness/C12/timewheel_test.go",
                                           "verif_c12q_test.go": "harness/C12/queue_sched_test.go"}), "overlay_abs": VERIFX},
     ],
-    "quick": {"n": 48, "shards": 16},
-    "thorough": {"n": 1600, "shards": 16},
+    "quick": {"n": 48, "shards": 16, "timeout": "15m"},
+    "thorough": {"n": 1600, "shards": 16, "timeout": "60m"},
     "min_nontrivial": 50,
     "level_text": "systematic, delay-bounded schedule exploration: scenarios are sampled (rapid); for each, every schedule with at most two deviations from a deterministic default "
                   "scheduler is enumerated over the real timewheel.go / queue.go, whose synchronisation points are handed to a harness-owned scheduler by an AST rewriter, "
@@ -302,9 +311,12 @@ CHECKS["C19"] = {
     ],
     "units": [
         {"name": "pool", "pkg": "internal/smtpconn/pool", "overlay": {"verif_c19_test.go": "harness/C19/pool_test.go"}},
+        {"name": "remote-config", "pkg": "internal/target/remote", "run": "^TestVerifC19RemoteConfig$", "go": GO126,
+         "overlay": {"verif_c19_test.go": "harness/C19/remote_config_test.go"}, "overlay_abs": VERIFX,
+         "quick": {"n": 32, "shards": 16, "timeout": "10m"}, "thorough": {"n": 480, "shards": 16, "timeout": "45m"}},
     ],
-    "quick": {"n": 48, "shards": 16},
-    "thorough": {"n": 1600, "shards": 16},
+    "quick": {"n": 96, "shards": 16, "timeout": "10m"},
+    "thorough": {"n": 1600, "shards": 16, "timeout": "45m"},
     "min_nontrivial": 50,
     "level_text": "systematic, delay-bounded schedule exploration of the real pool.go (synchronisation points handed to a harness-owned scheduler by an AST rewriter) on a virtual clock; "
                   "scenarios sampled by rapid, schedules with at most two deviations enumerated up to a cap; invariants over instrumented connection objects.",
@@ -314,6 +326,7 @@ CHECKS["C19"] = {
 }
 
 CHECKS["C03"] = {
+    "crash_is_violation": True,
     "title": "every SMTP/LMTP transaction finalised once and matches its reply",
     "go": GO,
     "units": [
@@ -330,6 +343,7 @@ CHECKS["C03"] = {
 }
 
 CHECKS["C11"] = {
+    "crash_is_violation": True,
     "title": "limits enforced, every permit returned, no crash",
     "go": GO126,
     "units": [
@@ -347,6 +361,7 @@ CHECKS["C11"] = {
 }
 
 CHECKS["C09"] = {
+    "crash_is_violation": True,
     "title": "per-recipient results name exactly the accepted recipients",
     "go": GO,
     "units": [
@@ -368,6 +383,7 @@ CHECKS["C09"] = {
 }
 
 CHECKS["C05"] = {
+    "crash_is_violation": True,
     "title": "outbound mail only over connections that satisfy the policy",
     "go": GO,
     "units": [
